@@ -10,7 +10,7 @@ import os
 
 from sim import kernel, world as world_mod, patches, host, casegen
 from models import protocol as P
-from engines import c01
+from engines import c01, diskmode
 
 PROPERTY = 'C04'
 LEVEL = 'fault_enumeration'
@@ -25,7 +25,7 @@ RULE_TEXT = ('runs = deterministic sweep over every (phase step x position x fau
 REACH_PROBES = ['mode_act', 'action_with_output_transformation', 'case_elsewhere_than_start_directory', 'read_through_preprocessor', 'keep', 'no_keep', 'sandbox_created', 'no_sandbox', 'ended_by_fault_with_sandbox', 'ended_pass',
                 'cd_executed', 'env_executed', 'tmp_file_by_case', 'child_wrote_file', 'chmod_readonly',
                 'child_left_symlink', 'child_left_odd_entries', 'child_removed_cwd', 'cwd_deleted_when_execution_ends', 'result_observed_after_act', 'result_observed_before_act', 'double_fault', 'keep_after_failure',
-                'cwd_in_tmp_at_end']
+                'cwd_in_tmp_at_end'] + diskmode.PROBES
 
 PFX = casegen.PREFIX
 
@@ -154,13 +154,60 @@ def sweep_specs():
 
 
 def total_runs(tier):
-    return len(sweep_specs()) + (1000 if tier == 'quick' else 300000)
+    return len(sweep_specs()) + diskmode.n_sweep() + (1000 if tier == 'quick' else 300000)
+
+
+DISK_SHARE = 0.25  # of the random part: disk-fault plans (engines/diskmode.py)
+
+
+def random_plan(seed, tier, g, fr, armed=True, extra=None, density=0.6):
+    """A random plan of this workload; armed=False: no step fault, no failing child (the disk-fault workload of
+    engines/diskmode.py starts from such a plan); extra(case, procs, g) may add items."""
+    shape = tuple(g.choice([0, 1, 2, 3]) for _ in range(5))
+    status = g.choices(['PASS', 'FAIL', 'SKIP'], [70, 22, 8])[0] if armed else g.choices(['PASS', 'FAIL'], [80, 20])[0]
+    keep = g.random() < 0.5
+    case = {}
+    procs = {'atc': {'exit': g.choice([0, 0, 1, 7, 255]), 'stdout': g.choice(['', 'atc-out\n', 'no newline']),
+                     'stderr': g.choice(['', 'e\n'])}}
+    for ph, cnt in zip(casegen.INSTR_PHASES, shape):
+        items = []
+        for j in range(cnt):
+            ident = '%s%d' % (PFX[ph], j)
+            if ph == 'conf' or g.random() < 0.7:
+                items.append({'k': 'fault', 'id': ident})
+            else:
+                items.append({'k': 'probe', 'id': ident, 'form': g.choice(['%', 'run', '$'])})
+                procs[ident] = {'exit': 0}
+        case[ph] = items
+    act_kind = g.choices(['sys', 'shell', 'empty', 'transformed'], [60, 15, 10, 15])[0]
+    case['act'] = {'lines': {'sys': ['% atc'], 'shell': ['$ atc arg'], 'empty': [],
+                             # the program of [act] has a transformation: result/stdout holds the transformed
+                             # output, result/stderr and result/exit-code what the action wrote / exited with
+                             'transformed': ['% atc', '  -transformed-by char-case -to-upper']}[act_kind]}
+    if act_kind == 'transformed' and not procs['atc'].get('stderr'):
+        procs['atc'] = dict(procs['atc'], stderr='written on stderr by the action\n')
+    disturb(case, procs, g, density)
+    if extra is not None:
+        extra(case, procs, g)
+    faults = arm_faults(case, procs, fr, act_kind != 'empty') if armed else []
+    plan = c01._base_plan(seed, tier, case, status, False, faults, 'cli', procs,
+                          knob=g.choice([1, 3, 64, 8192]))
+    plan['keep'] = keep
+    return plan
+
+
+def arm_faults(case, procs, fr, has_atc):
+    return c01.arm_random_faults(case, procs, fr, has_atc, p_none=0.25)
 
 
 def make_plan(i, master, tier):
     seed = kernel.run_seed(master, PROPERTY, i)
     g = kernel.stream(seed, 'gen')
     specs = sweep_specs()
+    if len(specs) <= i < len(specs) + diskmode.n_sweep():
+        return diskmode.make_plan(PROPERTY, i - len(specs), seed, tier, sweep=True)
+    if i >= len(specs) and kernel.stream(seed, 'workload').random() < DISK_SHARE:
+        return diskmode.make_plan(PROPERTY, None, seed, tier, sweep=False)
     if i < len(specs):
         shape, status, keep, faults = specs[i]
         case = c01.stub_case(shape)
@@ -176,33 +223,8 @@ def make_plan(i, master, tier):
                               knob=g.choice([1, 8192]))
     else:
         fr = kernel.stream(seed, 'faults')
-        shape = tuple(g.choice([0, 1, 2, 3]) for _ in range(5))
-        status = g.choices(['PASS', 'FAIL', 'SKIP'], [70, 22, 8])[0]
-        keep = g.random() < 0.5
-        case = {}
-        procs = {'atc': {'exit': g.choice([0, 0, 1, 7, 255]), 'stdout': g.choice(['', 'atc-out\n', 'no newline']),
-                         'stderr': g.choice(['', 'e\n'])}}
-        for ph, cnt in zip(casegen.INSTR_PHASES, shape):
-            items = []
-            for j in range(cnt):
-                ident = '%s%d' % (PFX[ph], j)
-                if ph == 'conf' or g.random() < 0.7:
-                    items.append({'k': 'fault', 'id': ident})
-                else:
-                    items.append({'k': 'probe', 'id': ident, 'form': g.choice(['%', 'run', '$'])})
-                    procs[ident] = {'exit': 0}
-            case[ph] = items
-        act_kind = g.choices(['sys', 'shell', 'empty', 'transformed'], [60, 15, 10, 15])[0]
-        case['act'] = {'lines': {'sys': ['% atc'], 'shell': ['$ atc arg'], 'empty': [],
-                                 # the program of [act] has a transformation: result/stdout holds the transformed
-                                 # output, result/stderr and result/exit-code what the action wrote / exited with
-                                 'transformed': ['% atc', '  -transformed-by char-case -to-upper']}[act_kind]}
-        if act_kind == 'transformed' and not procs['atc'].get('stderr'):
-            procs['atc'] = dict(procs['atc'], stderr='written on stderr by the action\n')
-        disturb(case, procs, g)
-        faults = c01.arm_random_faults(case, procs, fr, act_kind != 'empty', p_none=0.25)
-        plan = c01._base_plan(seed, tier, case, status, False, faults, 'cli', procs,
-                              knob=g.choice([1, 3, 64, 8192]))
+        plan = random_plan(seed, tier, g, fr)
+        keep = plan['keep']
     plan['property'] = PROPERTY
     plan['engine'] = 'c04'
     plan['keep'] = keep
@@ -222,6 +244,12 @@ def make_plan(i, master, tier):
 # ----------------------------------------------------------------------------- execute
 
 def execute(plan, scratch):
+    if plan.get('mode') == 'disk':
+        return diskmode.execute(plan, scratch)
+    return execute_plain(plan, scratch)
+
+
+def execute_plain(plan, scratch):
     w = world_mod.World(os.path.join(scratch, 'w'))
     files = casegen.render_files(plan['case'], plan['status'])
     text = files['t.case']
@@ -279,6 +307,10 @@ def execute(plan, scratch):
         'home_unchanged': home_before == home_after,
         'digest': digest, 'sim_seconds': sim.clock.advanced,
     }
+    if sim.diskfault is not None:
+        d = sim.diskfault
+        hist['disk'] = {'fired': d['fired'], 'seq': d['seq'], 'op': d['op'], 'path': d['path'], 'n': d['nth'],
+                        'ops': [list(o) for o in d['ops']]}
     c01._annotate(plan, hist)
     _probes(plan, hist)
     w.destroy()
@@ -404,16 +436,9 @@ def _probes(plan, hist):
 
 # ----------------------------------------------------------------------------- oracle
 
-def oracle(plan, hist):
-    V = []
-
-    def bad(rule, expected, observed):
-        V.append({'rule': 'C04.' + rule, 'expected': expected, 'observed': observed})
-
-    res = hist['result']
-    if res.get('hang') or res.get('escape') or res.get('exception'):
-        bad('returns', 'execute returns', {k: res.get(k) for k in ('hang', 'escape', 'exception')})
-        return V
+def judge_in_situ(plan, hist, bad, upto=None):
+    """The observations taken while the case runs (by stubs and simulated children, at the moment they run) against the
+    state model; upto = only events before that event number (the disk-fault workload judges up to the fault)."""
     case, status = plan['case'], plan['status']
     expect, st, info = _model(plan, hist)
     primary, ploc = info['primary'], info['ploc']
@@ -429,6 +454,8 @@ def oracle(plan, hist):
         exp_result_files['stdout'] = exp_result_files['stdout'].upper()
     first = True
     for e in hist['events']:
+        if upto is not None and e['seq'] >= upto:
+            break
         key = 'act' if e['id'] in ('act', 'atc') else e['id']
         x = expect.get(key)
         if x is None or e['id'].startswith('c'):
@@ -464,6 +491,26 @@ def oracle(plan, hist):
                 if obs['result'] != [] and not (e['kind'] == 'execute'):
                     bad('result.empty_before_act', [], obs['result'])
         first = False
+    return st, info, exp_result_files
+
+
+def oracle(plan, hist):
+    if plan.get('mode') == 'disk':
+        return diskmode.oracle_c04(plan, hist)
+    return oracle_plain(plan, hist)
+
+
+def oracle_plain(plan, hist):
+    V = []
+
+    def bad(rule, expected, observed):
+        V.append({'rule': 'C04.' + rule, 'expected': expected, 'observed': observed})
+
+    res = hist['result']
+    if res.get('hang') or res.get('escape') or res.get('exception'):
+        bad('returns', 'execute returns', {k: res.get(k) for k in ('hang', 'escape', 'exception')})
+        return V
+    st, info, exp_result_files = judge_in_situ(plan, hist, bad)
     # end of execution
     if not res['cwd_ok']:
         bad('isolation.cwd_restored', res['cwd_before'], res['cwd_after'])
@@ -506,6 +553,8 @@ def _envd(d):
 
 
 def signature(plan, hist):
+    if plan.get('mode') == 'disk':
+        return diskmode.signature(plan, hist)
     _, sig = c01.signature(plan, hist)
     nontrivial = hist['n_sandboxes'] > 0 or bool(hist['fired_all'])
     la = plan.get('launch') or {}
@@ -513,6 +562,8 @@ def signature(plan, hist):
 
 
 def sample_view(plan, hist):
+    if plan.get('mode') == 'disk':
+        return diskmode.sample_view(plan, hist)
     return {'case_text': hist['text'], 'argv': hist['result']['argv'], 'exit': hist['result']['exit'],
             'stdout': hist['result']['stdout'].replace(hist['sbx_path'] or '\0', '$SBX'),
             'events': [(e['kind'], e['id'], e['cwd'], (e.get('obs') or {}).get('tmp'), (e.get('obs') or {}).get('result'))
